@@ -505,7 +505,7 @@ MATCHERS = {k: _kind_matcher(k) for k in KINDS}
 
 # ---- Coq terms -----------------------------------------------------------------------------------------------
 def zl(s):
-  return core.zlist([ord(c) for c in s])
+  return '[' + '; '.join('%d%%Z' % ord(c) for c in s) + ']'
 
 
 def coq_occ(o):
@@ -541,6 +541,13 @@ EXTRA_DEFS = '''
 Require Import Grist.Model.Renames Grist.Model.RenamesPrint.
 Definition res_is (r : R text) (o : option text) : bool :=
   match r, o with ROk a, Some b => name_eqb a b | RErr _, None => true | _, _ => false end.
+(* typed case constructors: every literal is elaborated against a known type *)
+Definition cR (t : text) (ps : list patch) (o : option text) := (t, ps, o).
+Definition cT (old : text) (rep : list occ) (rt : list (name * name)) (rc : list (name * name * name)) (new : text) :=
+  (old, rep, rt, rc, new).
+Definition cP (f : expr) (t : text) := (f, t).
+Definition cE (d : doc) (self : name) (f : expr) (rt : list (name * name)) (rc : list (name * name * name)) (new : text) :=
+  (d, self, f, rt, rc, new).
 '''
 
 
@@ -550,7 +557,7 @@ def replacer_cases(ctx):
   r = ctx.rng
   out = []
   alphabet = 'ab$. _xé"(=)\n'
-  for i in range(ctx.n(300, 3000)):
+  for i in range(ctx.n(250, 3000)):
     text = ''.join(r.choice(alphabet) for _ in range(r.choice([0, 1, 3, 6, 10, 16])))
     patches = []
     for _ in range(r.choice([0, 1, 1, 2, 3, 4])):
@@ -575,17 +582,18 @@ def replacer_cases(ctx):
 def run_streams(ctx):
   """All engine runs of one check: random histories and the directed documents, in the three streams.
   Returns the list of judged renames: dicts(stream, mode, seed, bundles, path, act, status, info, problems, trees)."""
-  plan = [('main', 'random', ctx.n(36, 700)), ('main', 'directed', ctx.n(2, 30)),
+  plan = [('main', 'random', ctx.n(22, 700)), ('main', 'directed', ctx.n(1, 30)),
           ('clash', 'directed', ctx.n(1, 10)), ('gaps', 'directed', ctx.n(1, 10)),
-          ('clash', 'random', ctx.n(2, 60)), ('gaps', 'random', ctx.n(2, 60))]
+          ('clash', 'random', ctx.n(1, 60)), ('gaps', 'random', ctx.n(1, 60))]
   out = []
   for stream, mode, n in plan:
-    for _ in range(n):
+    for k in range(n):
       seed = ctx.rng.randrange(1 << 30)
+      collect = ctx.tier == 'thorough' or k % 2 == 0       # what parse_grist_names reports is recorded for these
       if mode == 'random':
-        it = run_history(seed, stream, 8, 5, collect=True)
+        it = run_history(seed, stream, 8, 5, collect=collect)
       else:
-        it = run_directed(seed, stream, ctx.n(7, 14), collect=True)
+        it = run_directed(seed, stream, ctx.n(4, 14), collect=collect)
       for done, path, act, status, info, problems, gen in it:
         out.append({'stream': stream, 'mode': mode, 'seed': seed, 'bundles': done, 'path': path, 'act': act,
                     'status': status, 'info': info, 'problems': problems,
@@ -641,47 +649,50 @@ def correspond(ctx):
   for text, patches, res in rc:
     ps = core.coq_list(['mkpatch %s %s %s %s' % (core.zlit(p.start), core.zlit(p.end), zl(p.old_text), zl(p.new_text))
                         for p in patches])
-    terms.append('(%s, %s, %s)' % (zl(text), ps, core.optlit(res, zl)))
-  bad = ctx.run_cases('replacer', [], 'fun c => res_is (replacer_text (fst (fst c)) (snd (fst c))) (snd c)', terms,
-                      shard=500, extra_defs=EXTRA_DEFS)
-  for i in bad[:3]:
-    ctx.broken('correspondence:replacer_text differs from textbuilder.Replacer', repr(rc[i]))
+    terms.append('(cR %s %s %s)' % (zl(text), ps, core.optlit(res, zl)))
+  jobs = [('replacer', 'fun c => res_is (replacer_text (fst (fst c)) (snd (fst c))) (snd c)', terms, 500, EXTRA_DEFS,
+           'correspondence:replacer_text differs from textbuilder.Replacer', [repr(x) for x in rc])]
   ctx.extra['replacer_cases'] = len(rc)
   # (2) _prepare_formula_renames vs rename_text, (3) the printers, (4) ren + pr vs the formula the engine wrote
   t2, t3, t4, src2, src4 = [], [], [], [], []
   seen3 = set()
+  schemas = {}
   for r in runs:
     info = r['info']
     if r['status'] != 'applied' or 'formulas' not in info or not info['renames']:
       continue
     rt, rcs = coq_renames(info['renames'])
     for tid, cid, old, new, reported in info['formulas']:
-      if len(t2) < ctx.n(400, 4000) and (old != new or len(t2) % 3 == 0):
-        t2.append('(%s, %s, %s, %s, %s)' % (zl(old), core.coq_list([coq_occ(o) for o in reported]), rt, rcs, zl(new)))
+      if len(t2) < ctx.n(160, 4000) and (old != new or len(t2) % 3 == 0):
+        t2.append('(cT %s %s %s %s %s)' % (zl(old), core.coq_list([coq_occ(o) for o in reported]), rt, rcs, zl(new)))
         src2.append((old, reported, info['renames'], new))
       tree = r['trees'].get(old)
       if tree is not None and r['stream'] != 'clash':
         if old not in seen3:
           seen3.add(old)
-          t3.append('(%s, %s)' % (c16gen.coq(tree), zl(old)))
-        if len(t4) < ctx.n(250, 2500):
-          t4.append('(%s, %s, %s, %s, %s, %s)' % (coq_schema(info['schema']), zl(tid), c16gen.coq(tree), rt, rcs, zl(new)))
+          t3.append('(cP %s %s)' % (c16gen.coq(tree), zl(old)))
+        if len(t4) < ctx.n(90, 2500):
+          sch = coq_schema(info['schema'])
+          if sch not in schemas:
+            schemas[sch] = 'sch_%d' % len(schemas)
+          t4.append('(cE %s %s %s %s %s %s)' % (schemas[sch], zl(tid), c16gen.coq(tree), rt, rcs, zl(new)))
           src4.append((tid, old, info['renames'], new))
-  bad = ctx.run_cases('renametext', [],
-                      'fun c => match c with (old, rep, rt, rc, new) => '
-                      'res_is (rename_text (rt_of rt) (rc_of rc) old rep) (Some new) end', t2, shard=400,
-                      extra_defs=EXTRA_DEFS)
-  for i in bad[:3]:
-    ctx.broken('correspondence:rename_text differs from _prepare_formula_renames', repr(src2[i]))
-  bad = ctx.run_cases('printer', [], 'fun c => name_eqb (pr_text (fst c)) (snd c)', t3, shard=400, extra_defs=EXTRA_DEFS)
-  for i in bad[:3]:
-    ctx.broken('correspondence:Coq pr differs from the harness printer', t3[i][:400])
-  bad = ctx.run_cases('rentree', [],
-                      'fun c => match c with (d, self, f, rt, rc, new) => '
-                      'name_eqb (pr_text (ren (rt_of rt) (rc_of rc) d self [] f)) new end', t4, shard=120,
-                      extra_defs=EXTRA_DEFS)
-  for i in bad[:3]:
-    ctx.broken('correspondence:ren (tree level) differs from the formula the engine wrote', repr(src4[i]))
+  jobs.append(('renametext', 'fun c => match c with (old, rep, rt, rc, new) => '
+               'res_is (rename_text (rt_of rt) (rc_of rc) old rep) (Some new) end', t2, 400, EXTRA_DEFS,
+               'correspondence:rename_text differs from _prepare_formula_renames', [repr(x) for x in src2]))
+  jobs.append(('printer', 'fun c => name_eqb (pr_text (fst c)) (snd c)', t3, 400, EXTRA_DEFS,
+               'correspondence:Coq pr differs from the harness printer', [x[:400] for x in t3]))
+  jobs.append(('rentree', 'fun c => match c with (d, self, f, rt, rc, new) => '
+               'name_eqb (pr_text (ren (rt_of rt) (rc_of rc) d self [] f)) new end', t4, 300,
+               EXTRA_DEFS + ''.join('Definition %s : doc := %s.\n' % (v, k) for k, v in schemas.items()),
+               'correspondence:ren (tree level) differs from the formula the engine wrote', [repr(x) for x in src4]))
+  # the four families are independent: evaluate them side by side
+  import concurrent.futures
+  with concurrent.futures.ThreadPoolExecutor(max_workers=4) as ex:
+    futs = [(j, ex.submit(ctx.run_cases, j[0], [], j[1], j[2], j[3], 300, j[4])) for j in jobs]
+    for j, fut in futs:
+      for i in fut.result()[:3]:
+        ctx.broken(j[5], j[6][i])
   ctx.extra.update({'rename_text_cases': len(t2), 'printer_cases': len(t3), 'tree_rename_cases': len(t4)})
 
 
